@@ -5,6 +5,7 @@ import (
 	"sort"
 
 	codectypes "github.com/cosmos/cosmos-sdk/codec/types"
+	sdk "github.com/cosmos/cosmos-sdk/types"
 
 	"github.com/teleport-network/teleport/x/xibc/core/host"
 	"github.com/teleport-network/teleport/x/xibc/exported"
@@ -169,6 +170,16 @@ func (gs GenesisState) Validate() error {
 
 		}
 
+	}
+
+	for i, relayer := range gs.Relayers {
+		// the relayer's address is the key of its registry entry; chains and addresses are read pairwise
+		if _, err := sdk.AccAddressFromBech32(relayer.Address); err != nil {
+			return fmt.Errorf("invalid relayer address %s index %d: %w", relayer.Address, i, err)
+		}
+		if len(relayer.Chains) != len(relayer.Addresses) {
+			return fmt.Errorf("relayer %s index %d has %d chains and %d addresses", relayer.Address, i, len(relayer.Chains), len(relayer.Addresses))
+		}
 	}
 
 	return host.ClientIdentifierValidator(gs.NativeChainName)
